@@ -14,7 +14,7 @@
 From MV Require Export Hs.HsModel.
 Local Open Scope Z_scope.
 
-Inductive mk := KCcs | KHs (t : Z).                     (* message kinds *)
+Inductive mk := KCcs | KHs (t : Z) | KCh0.              (* message kinds; KCh0: DTLS ClientHello with an empty cookie *)
 Inductive kex := KexRSA | KexECDHE | KexPSK | KexDHEPSK.
 Inductive resm :=
 | ResNone          (* full handshake *)
@@ -31,7 +31,8 @@ Record mode := mkmode {
   md_newticket : bool; (* <= 1.2: ServerHello carried the SessionTicket extension (RFC 5077: NewSessionTicket MUST follow) *)
   md_ocsp : bool;      (* <= 1.2: ServerHello carried status_request *)
   md_hrr : bool;       (* 1.3: a HelloRetryRequest round took place *)
-  md_early : bool      (* 1.3: the server accepted early data (EndOfEarlyData follows) *)
+  md_early : bool;     (* 1.3: the server accepted early data (EndOfEarlyData follows) *)
+  md_dtls : bool       (* DTLS 1.0 / 1.2: RFC 6347 4.2 - the TLS flows, preceded by an optional cookie exchange *)
 }.
 
 Definition is_psk (k : kex) : bool := match k with KexPSK | KexDHEPSK => true | _ => false end.
@@ -93,13 +94,32 @@ Definition received (md : mode) (f : list (side * mk)) : list mk :=
 Definition cauth_consistent (md : mode) (f : list (side * mk)) : Prop :=
   md_server md = true -> (md_cauth md = true <-> In (Sv, KHs CREQ) f).
 
+(* RFC 6347 4.2.1 / figure 1: ClientHello (empty cookie), HelloVerifyRequest, then the handshake proper starting with the
+   ClientHello that carries the cookie.  The exchange is optional (the server MAY skip it); a server keeps no state for it. *)
+Definition cookie_round : list (side * mk) := [(Cl, KCh0); (Sv, KHs HVR)].
+Definition dflow (md : mode) (f : list (side * mk)) : Prop :=
+  flow md f \/ (md_dtls md = true /\ exists f0, flow md f0 /\ f = cookie_round ++ f0).
+
+(* DTLS: ChangeCipherSpec carries no message_seq; the ChangeCipherSpec of a retransmitted flight cannot be told from a repeated
+   one, so consecutive ChangeCipherSpecs count once (retransmission is not a deviation of the message sequence) *)
+Fixpoint squash_ccs (l : list mk) : list mk :=
+  match l with
+  | KCcs :: ((KCcs :: _) as r) => squash_ccs r
+  | x :: r => x :: squash_ccs r
+  | [] => []
+  end.
+Definition dsquash (md : mode) (l : list mk) : list mk := if md_dtls md then squash_ccs l else l.
+
 Definition legal (md : mode) (l : list mk) : Prop :=
-  exists f, flow md f /\ cauth_consistent md f /\ l = received md f.
+  exists f, dflow md f /\ cauth_consistent md f /\ dsquash md l = received md f.
 
 (* ---- the negotiated mode, read off the hello messages the receiver accepted (and its own configuration) *)
-Definition kinds (l : list item) : list mk := map (fun i => match i with MCcs => KCcs | MHs m => KHs (m_typ m) end) l.
+Definition kind_of (i : item) : mk :=
+  match i with MCcs => KCcs | MHs m => match m_body m with BHelloNoCookie => KCh0 | _ => KHs (m_typ m) end end.
+Definition kinds (l : list item) : list mk := map kind_of l.
 
-Definition is_hello (server : bool) (m : hmsg) : bool := Z.eqb (m_typ m) (if server then CH else SH).
+Definition is_hello (server : bool) (m : hmsg) : bool :=
+  Z.eqb (m_typ m) (if server then CH else SH) && negb (match m_body m with BHelloNoCookie => true | _ => false end).
 Fixpoint hellos (server : bool) (l : list item) : list body :=
   match l with
   | [] => []
@@ -111,11 +131,11 @@ Definition kex_of (p d : bool) : kex := if p then (if d then KexDHEPSK else KexP
 Definition negotiated (c : cfg) (l : list item) : option mode :=
   let sv := c_server c in
   (* early data can only be accepted together with the PSK and not after a HelloRetryRequest (RFC 8446 4.2.10) *)
-  let mk13 hrr p e := Some (mkmode true sv KexECDHE (sv && c_cauth c && negb p) (if p then ResYes else ResNone) false false hrr (sv && e && p && negb hrr)) in
+  let mk13 hrr p e := Some (mkmode true sv KexECDHE (sv && c_cauth c && negb p) (if p then ResYes else ResNone) false false hrr (sv && e && p && negb hrr) false) in
   let mk12 r p d tk st :=
     Some (mkmode false sv (kex_of p d) (sv && c_cauth c && negb r)
             (if r then ResYes else if negb sv && Z.eqb (c_tick c) T_SENT_TICKET && negb tk then ResMaybe else ResNone)
-            (negb sv && tk) (negb sv && st) false false) in
+            (negb sv && tk) (negb sv && st) false false (c_dtls c)) in
   match hellos sv l with
   | [BHello12 r p d tk st] => mk12 r p d tk st
   | [BHello13 false p e] => mk13 false p e
